@@ -23,7 +23,7 @@ PREDS = {
     "mul": ("{qa} * {qb}", "benign(exc) or (isq(r) and r.unit.dimension is da * db and (dec(r) or not (dec(A) or dec(B))))"),
     "div": ("{qa} / {qb}", "benign(exc) or (isq(r) and r.unit.dimension is da / db and (dec(r) or not (dec(A) or dec(B))))"),
     "pow": ("{qa} ** {k}", "benign(exc) or (isq(r) and r.unit.dimension is da ** {k} and (dec(r) or not dec(A)))"),
-    "root": ("(abs({qa}) ** {k2}).root({k2})", "benign(exc) or (isq(r) and r.unit.dimension is da)"),
+    "root": ("(abs({qa}) ** {k2}).root({k2})", "benign(exc) or (isq(r) and r.unit.dimension is da and (dec(r) or not dec(A)))"),
     "add": ("{qa} + {qb}", "(isq(r) and da is db and r.unit is A.unit) or isinstance(exc, (ConversionNotFound, TypeError))"),
     "sub": ("{qa} - {qb}", "(isq(r) and da is db and r.unit is A.unit) or isinstance(exc, (ConversionNotFound, TypeError))"),
     "lt": ("{qa} < {qb}", "(isinstance(r, bool) and da is db) or isinstance(exc, TypeError)"),
@@ -83,6 +83,32 @@ def run(tier, seed):
                 failures.append(case)
         if len(samples) < 5:
             samples.append(case["src"])
+    # the result type must not depend on which numerically equal operand was seen first in the process
+    from decimal import Decimal
+    for k in (2, 3):
+        for base in (16, 27, 6.25, 2):
+            for first, second in ((float, Decimal), (int, Decimal), (Decimal, float)):
+                try:
+                    x1, x2 = first(base), second(str(base)) if second is Decimal else second(base)
+                except Exception:
+                    continue
+                u = eval("Meter", ns)
+                for op in ("root", "pow", "mul", "div"):
+                    evals += 1
+                    f = {"root": lambda q: (q ** k).root(k), "pow": lambda q: q ** k, "mul": lambda q: q * (2 * u), "div": lambda q: q / (2 * u)}[op]
+                    try:
+                        f(x1 * u)
+                        r2 = f(x2 * u)
+                    except Exception:
+                        continue
+                    if isinstance(x2, Decimal) and not isinstance(r2.magnitude, Decimal):
+                        case = {"op": "order-" + op, "qa": "(%r * Meter)" % x2, "qb": "(1 * Meter)",
+                                "src": "[(lambda q: %s)(x * Meter) for x in (%s(%r), Decimal(%r))][1]" % (
+                                    {"root": "(q ** %d).root(%d)" % (k, k), "pow": "q ** %d" % k, "mul": "q * (2 * Meter)", "div": "q / (2 * Meter)"}[op], first.__name__, base, str(base)),
+                                "pred": "isq(r) and dec(r)", "key": "order-%s:not-decimal" % op,
+                                "desc": "%s of a Decimal quantity is %r after the same operation on the equal %s" % (op, r2.magnitude, first.__name__)}
+                        if sum(1 for f_ in failures if f_["key"] == case["key"]) < 2:
+                            failures.append(case)
     return {"evaluations": evals, "distinct": len(distinct), "failures": failures[:12], "samples": samples,
             "rule": "random pairs of quantities (int/float/Decimal magnitudes, compound prefixed units, equal and different dimensions) x 15 "
                     "operator shapes; distinct = distinct (operator, magnitude kinds, unit shapes)", "bound": "%d cases" % n}
